@@ -587,6 +587,8 @@ func (w *World) execOne(op Op) {
 		w.doAnswer(op)
 	case "mut", "silent":
 		w.doMutate(op)
+	case "mutm":
+		w.doMutateMany(op)
 	case "custom":
 		w.doCustom(op)
 	case "delete":
@@ -866,6 +868,35 @@ func (w *World) doMutate(op Op) {
 	}
 	if w.mq.Deliver("event."+op.S+"."+ev, []byte(payload)) {
 		v.applyAnnounced(op.O, op.Key, op.N, op.Val)
+	}
+}
+
+// doMutateMany sets several keys of a model (op.Par: key and value each) and
+// announces them in one change event.
+func (w *World) doMutateMany(op Op) {
+	d := w.Svc.defFor(op.S, w.CIDs())
+	if d == nil || d.QueryMap != nil {
+		return
+	}
+	v := w.Svc.variant(d, op.S, "")
+	if v.Type != 'm' {
+		return
+	}
+	var parts []string
+	var done []Op
+	for _, p := range op.Par {
+		if _, _, ok := v.Apply("set", p.Key, 0, p.Val); ok {
+			parts = append(parts, jstr(p.Key)+":"+p.Val.ServiceJSON())
+			done = append(done, p)
+		}
+	}
+	if len(parts) == 0 {
+		return
+	}
+	if w.mq.Deliver("event."+op.S+".change", []byte(`{"values":{`+strings.Join(parts, ",")+`}}`)) {
+		for _, p := range done {
+			v.applyAnnounced("set", p.Key, 0, p.Val)
+		}
 	}
 }
 
